@@ -198,15 +198,29 @@ pub fn j_numeric(pf: usize, x: f64, ts: TimeScale, out: &mut Local) {
         1 => (NS_DAY, zero_mjd_ns),
         _ => (NS_S, 0),
     };
-    // exact denoted count: x * unit - anchor, with x a dyadic rational: compare within tolerance
-    let approx = x * unit as f64 - anchor_ns as f64;
-    let ulp_ns = crate::oracle::ulp::ulp_of(x.abs().max((x - anchor_ns as f64 / unit as f64).abs())) * unit as f64;
+    // exact denoted count: x * unit - anchor, with x the dyadic rational m * 2^e, in integer arithmetic; the tolerance
+    // is "the resolution of a 64-bit float of that magnitude" (of x itself: not of its distance to the anchor)
+    let (sg, m, e) = crate::oracle::ulp::decode(x);
+    let prod: i128 = if m == 0 {
+        0
+    } else if e >= 0 {
+        ((m as i128) << e.min(40)) * unit
+    } else if -e >= 120 {
+        0
+    } else {
+        // m * unit < 2^53 * 2^47: fits; shift in two steps to stay below 127 bits
+        let num = m as i128 * unit;
+        if -e >= 127 { 0 } else { num >> (-e) }
+    };
+    let exact_ns = sg * prod - anchor_ns;
+    let approx = exact_ns as f64;
+    let ulp_ns = crate::oracle::ulp::ulp_of(x.abs()) * unit as f64;
     let tol = 8.0 * ulp_ns + 2.0;
     match r {
         Ok(Ok((gts, g))) => {
             if gts != ts {
                 out.viol("c10.numeric", format!("scale-wrong,{}", PREFIX[pf]), args, scale_name(ts).into(), scale_name(gts).into());
-            } else if (g as f64 - approx).abs() <= tol {
+            } else if ((g - exact_ns).abs() as f64) <= tol {
                 out.ok(1, x.fract() != 0.0 || x < 0.0, pf as u64 * 16 + ts as u64);
                 if out.want_sample(x.fract() != 0.0) {
                     out.sample("c10.numeric", args, format!("{text:?} -> {} {g}", scale_name(ts)), x.fract() != 0.0);
